@@ -195,3 +195,25 @@ MUTANTS["C18"] = {
 }
 NEUTRAL["loader_len_cached"] = [(D, "        return len(self.y) // self.batach_size", "        if not hasattr(self, '_n'): self._n = len(self.y) // self.batach_size\n        return self._n")]
 NEUTRAL["split_uses_permutation"] = [(D, "        if shuffle:\n            np.random.shuffle(indices)", "        if shuffle:\n            indices = [int(i_) for i_ in np.random.permutation(data_size)]")]
+
+MUTANTS["C15"] = {
+    "orig_normal_init_takes_variance": [(I, "    std = gain * math.sqrt(2.0 / float(fan_in + fan_out))\n    return normal_(tensor, 0, std)", "    std = gain * math.sqrt(2.0 / float(fan_in + fan_out))\n    return normal_(tensor, 0, std**2)")],
+    "kaiming_normal_variance": [(I, "    std = gain * (1 / math.sqrt(float(fan[mode])))\n    return normal_(tensor, 0, std)", "    std = gain * (1 / math.sqrt(float(fan[mode])))\n    return normal_(tensor, 0, std**2)")],
+    "fan_in_fan_out_swapped": [(I, "    fan_in = num_input_fmaps * receptive_field_size\n    fan_out = num_output_fmaps * receptive_field_size", "    fan_out = num_input_fmaps * receptive_field_size\n    fan_in = num_output_fmaps * receptive_field_size")],
+    "xavier_gain_ignored": [(I, "    a = gain * math.sqrt(6.0 / float(fan_in + fan_out))", "    a = math.sqrt(6.0 / float(fan_in + fan_out))")],
+    "kaiming_uniform_sqrt6": [(I, "    std = gain * math.sqrt(3.0 / float(fan[mode]))", "    std = gain * math.sqrt(6.0 / float(fan[mode]))")],
+    "uniform_returns_new_tensor": [(I, "    tensor.data = np.random.uniform(a, b, tensor.shape).astype(tensor.dtype)\n    return tensor\n", "    return Tensor(np.random.uniform(a, b, tensor.shape).astype(tensor.dtype), requires_grad=tensor.requires_grad)\n")],
+    "normal_fills_float64_into_float32": [(I, "    tensor.data = np.random.normal(mean, std, tensor.shape).astype(tensor.dtype)", "    tensor.data = np.random.normal(mean, std, tensor.shape)")],
+    "receptive_field_ignores_last_dim": [(I, "        receptive_field_size = np.prod(tensor.shape[2:])", "        receptive_field_size = np.prod(tensor.shape[2:3])")],
+    "leaky_relu_gain_ignores_slope": [(I, "        return math.sqrt(2.0 / (1 + negative_slope ** 2))", "        return math.sqrt(2.0 / (1 + 0.01 ** 2))")],
+    "tanh_gain_wrong": [(I, "        return 5.0 / 3\n", "        return 3.0 / 5\n")],
+    "linear_bias_bound_uses_fan_out": [(L, "        init.uniform_(self.weight, -std, std)\n        if self.bias is not None:\n            init.uniform_(self.bias, -std, std)", "        init.uniform_(self.weight, -std, std)\n        if self.bias is not None:\n            init.uniform_(self.bias, -1. / math.sqrt(float(self.out_features)), 1. / math.sqrt(float(self.out_features)))")],
+    "conv2d_bound_sqrt_k": [(L, "        fan_in, _ = init._calculate_fan_in_and_fan_out(self.weight)\n        bound = 1. / math.sqrt(float(fan_in)) if fan_in > 0 else 0\n        nn.init.uniform_(self.weight, -bound, bound)\n        if self.bias is not None:\n            nn.init.uniform_(self.bias, -bound, bound)\n    \n    def forward(self, x: Tensor) -> Tensor:\n        return F.conv2d(", "        fan_in, _ = init._calculate_fan_in_and_fan_out(self.weight)\n        bound = 1. / math.sqrt(float(self.in_channels * self.kernel_size[0])) if fan_in > 0 else 0\n        nn.init.uniform_(self.weight, -bound, bound)\n        if self.bias is not None:\n            nn.init.uniform_(self.bias, -bound, bound)\n    \n    def forward(self, x: Tensor) -> Tensor:\n        return F.conv2d(")],
+    "uniform_clears_requires_grad": [(I, "    tensor.data = np.random.uniform(a, b, tensor.shape).astype(tensor.dtype)\n    return tensor\n", "    tensor.data = np.random.uniform(a, b, tensor.shape).astype(tensor.dtype)\n    tensor._requires_grad = False\n    return tensor\n")],
+    "constant_rounds_to_int": [(I, "    tensor.data = np.full(tensor.shape, val).astype(tensor.dtype)", "    tensor.data = np.full(tensor.shape, int(val) if tensor.ndim > 2 else val).astype(tensor.dtype)")],
+    "fan_mode_index_swapped": [(I, "    gain = calculate_gain(nonlinearity, a)\n    std = gain * math.sqrt(3.0 / float(fan[mode]))", "    gain = calculate_gain(nonlinearity, a)\n    std = gain * math.sqrt(3.0 / float(fan[1 - mode]))")],
+    "rng_bypasses_seeded_generator_scaled_wrong": [(I, "    tensor.data = np.random.normal(mean, std, tensor.shape).astype(tensor.dtype)", "    tensor.data = (mean + 0.5 * std * np.random.default_rng(0).standard_normal(tensor.shape)).astype(tensor.dtype)")],
+}
+NEUTRAL["uniform_via_rand"] = [(I, "    tensor.data = np.random.uniform(a, b, tensor.shape).astype(tensor.dtype)\n    return tensor\n", "    tensor.data = (a + (b - a) * np.random.rand(*tensor.shape)).astype(tensor.dtype)\n    return tensor\n")]
+NEUTRAL["normal_via_randn"] = [(I, "    tensor.data = np.random.normal(mean, std, tensor.shape).astype(tensor.dtype)", "    tensor.data = (mean + std * np.random.randn(*tensor.shape)).astype(tensor.dtype)")]
+NEUTRAL["uniform_fill_in_place_array"] = [(I, "    tensor.data = np.random.uniform(a, b, tensor.shape).astype(tensor.dtype)\n    return tensor\n", "    tensor.data[...] = np.random.uniform(a, b, tensor.shape)\n    return tensor\n")]
